@@ -149,6 +149,93 @@ def fixed_imports():
         if base:
             L = B.Lines()
             out.append(([B.cmt("Bf3Update", "1"), B.item("grp", runs=B.to_runs(L, [(base[0], 0, 3), (ty, 0, 4)]))], L, True))
+    out += fixed_flag_matrix() + fixed_names()
+    return out
+
+
+def _sec(L, bt, spans=((0, 40), (40, 2)), pre=(), reboot=True, ver=True):
+    """one delimited section: CHECK_FWVER first (closes a pending predecessor), instructions, one group, REBOOT"""
+    its = [B.ins("CHECK_FWVER", "hex", [1, 2, 2, 7, 8])] if ver else []
+    its += list(pre)
+    its.append(B.item("grp", runs=B.to_runs(L, [(bt + (a >> 16), a & 0xFFFF, n) for a, n in spans])))
+    if reboot:
+        its.append(B.ins("REBOOT"))
+    return its
+
+
+def fixed_flag_matrix():
+    """enforce_bf3_compatibility x BF3-update marker x every rejection class x position of the offending section.
+    The flag may only decide about the marker: whatever cannot be represented is rejected with either value."""
+    out = []
+    flags = [(enf, mark) for enf in (True, False) for mark in (True, False)]
+
+    def emit(build):
+        for enf, mark in flags:
+            L = B.Lines()
+            hdr = [B.cmt("Bf3Update", "1")] if mark else []
+            out.append((hdr + [B.cmt("Creator", "x")] + build(L), L, enf))
+    # clean files: accepted iff the marker is there or the flag is off
+    emit(lambda L: _sec(L, 0x84) + _sec(L, 0x70, pre=[B.ins("SELECT_IF", "BRP")]) + _sec(L, 0x35, reboot=False))
+    emit(lambda L: _sec(L, 0x3D, pre=[B.ins("SELECT", bytes_=[1, 1, 0, 0xAD])]) + _sec(L, 0x34, reboot=False) + _sec(L, 0x40, reboot=False))
+    # unknown tag types: first / middle / last section, closed by REBOOT or not (then by the next CHECK_FWVER / end of file)
+    for ty in (0x50, 0x33, 0xA4, 0x00):
+        for pos in range(3):
+            for rb in (True, False):
+                def build(L, ty=ty, pos=pos, rb=rb):
+                    secs = [_sec(L, 0x84, reboot=rb), _sec(L, 0x39, reboot=rb)]
+                    secs.insert(pos, _sec(L, ty, spans=((0, 250), (250, 250)), reboot=rb))
+                    return sum(secs, [])
+                emit(build)
+    # an unknown tag type directly behind the data of its predecessor (no instruction in between), and as the only section
+    emit(lambda L: _sec(L, 0x84, reboot=False) + _sec(L, 0x50, ver=False, reboot=False))
+    emit(lambda L: _sec(L, 0x50, ver=False, reboot=False))
+    emit(lambda L: _sec(L, 0x50, ver=False, reboot=False) + _sec(L, 0x84, ver=False, reboot=False))
+    # the other rejection classes, offending section first / last
+    bad = [
+        lambda L: _sec(L, 0x36),                                                             # continuation page without its base
+        lambda L: _sec(L, 0x35, spans=((0, 3), (5, 2), (7, 2))),                             # gap in a blob
+        lambda L: _sec(L, 0x35, spans=((0, 3), (3, 2), (7, 2))),                             # gap before the last line
+        lambda L: _sec(L, 0x40, spans=((4, 3), (7, 2))),                                     # non-zero start
+        lambda L: _sec(L, 0x3D, pre=[B.ins("SELECT", bytes_=[1, 2, 0x80, 0x9B, 0, 0xAD])]),  # peripheral with a two-entry filter
+        lambda L: [B.ins("CHECK_FWVER", "hex", [1, 2])] + _sec(L, 0x84, ver=False),          # version descriptor too short
+        lambda L: _sec(L, 0x84, pre=[B.cmt("Firmware", "11X0 IDE ZY    1.23.04")]),           # firmware id not numeric
+        lambda L: _sec(L, 0x84, pre=[B.cmt("CRC", "0xZZ")]),                                 # checksum not hexadecimal
+        lambda L: _sec(L, 0x84, pre=[B.ins("SELECT", bytes_=[2, 1, 0, 0x9B])]),              # filter header malformed
+        lambda L: _sec(L, 0x70),                                                             # loader without interface
+    ]
+    for b in bad:
+        emit(lambda L, b=b: b(L) + _sec(L, 0x39))
+        emit(lambda L, b=b: _sec(L, 0x39) + b(L))
+    # every tag type once more with the flag off (with and without marker)
+    for ty in range(0xFE):
+        for mark in (True, False):
+            L = B.Lines()
+            out.append((([B.cmt("Bf3Update", "1")] if mark else []) + [B.item("grp", runs=B.to_runs(L, [(ty, 0, 3)]))], L, False))
+        base = [b for b in B.PAGES if b < ty < b + B.PAGES[b]]
+        if base:
+            L = B.Lines()
+            out.append(([B.item("grp", runs=B.to_runs(L, [(base[0], 0, 3), (ty, 0, 4)]))], L, False))
+    return out
+
+
+def fixed_names():
+    """every hardware id 0x00..0xCF (listed or not) as the single filter entry of a peripheral section (-> HWCID tag -> the
+    component kind of the summary comment, and the filter term), ids above FF, and all of them inside multi-entry filters
+    of a main firmware: each rendered name is judged against the pinned list of the specification"""
+    out = []
+    ids = list(range(0xD0)) + [0x100, 0x1AD, 0x3FFF]
+    for i in ids:
+        L = B.Lines()
+        out.append(([B.cmt("Bf3Update", "1"), B.ins("CHECK_FWVER", "hex", [0, 0, 4, 1, 2, 3, 4]),
+                     B.ins("SELECT", bytes_=[1, 1, i >> 8, i & 255]), B.item("grp", runs=B.to_runs(L, [(0x35, 0, 5)]))], L, True))
+    for k in range(0, len(ids), 6):
+        chunk = ids[k:k + 6]
+        f = [1, len(chunk)]
+        for j, i in enumerate(chunk):
+            more = j % 3 != 2 and j < len(chunk) - 1
+            f += [(0x80 if more else 0) | (0x40 if j % 2 else 0) | (i >> 8), i & 255]
+        L = B.Lines()
+        out.append(([B.cmt("Bf3Update", "1"), B.ins("SELECT", bytes_=f), B.item("grp", runs=B.to_runs(L, [(0x84, 0, 5)]))], L, True))
     return out
 
 
@@ -215,6 +302,8 @@ def run(tier):
             tid += 1
             n_parse += 1
             evs.append(B.run_parse(text, tid))
+        tid += 1
+        evs.append(B.run_names(tid))                       # the library's hardware-id tables against the pinned list
         n_real = len(evs)
         # canaries: corrupted copies of recorded events must be rejected by the trace spec
         canaries = {}
@@ -243,9 +332,9 @@ def run(tier):
         canary(gc, "raw lines: attribution mismatch flag", lambda e: e.update(bad=1))
         canary(gp[0], "parsed tag byte changed",
                lambda e: [o["lines"][0][2].__setitem__(0, o["lines"][0][2][0] ^ 1) for o in e["objs"] if o["k"] == "load"][:1])
-        names = os.path.join(wd, "names.ndjson")
-        tlc.write_ndjson(names, B.names_table())
-        rej, st = tlc.validate_trace(TRACE, TRACE_CFG, evs, wd, shards=16 if th else 10, timeout=3000 if th else 600, env={"NAMES_FILE": names})
+        canary(evs[n_real - 1], "second name for a listed hardware id", lambda e: e["fwd"].append([B.chars("PN5190"), 0xAD]))
+        canary(evs[n_real - 1], "reverse table names an id differently", lambda e: e["rev"][0].__setitem__(1, B.chars("X")))
+        rej, st = tlc.validate_trace(TRACE, TRACE_CFG, evs, wd, shards=16 if th else 10, timeout=3000 if th else 600)
         byid = {e["tid"]: e for e in evs}
         rejected = {x[1]: x[2] for x in rej}
         for t, what in canaries.items():
@@ -300,7 +389,8 @@ def run(tier):
         "ignored prepare/activate sections carry no CRC/REBOOT of their own; instructions in front of them stay pending for the next section",
         "the checksum is written `##CRC: 0x<1..8 hex digits>` (the only form the importer executes; `#>CRC ...` is rejected as malformed)",
         "data lines of a section do not overlap and lie at or above the page of its first line; no line crosses a 64 KiB page",
-        "hardware-id names are data: the library's REV_HWCID_MAP is handed to TLC; the spec renders with it",
+        "hardware-id names: the spec renders with the pinned list spec/HwcidNames.tla (transcribed from bec2format/hwcids.py of the pinned "
+        "commit); the library's HWCID_MAP / REV_HWCID_MAP must be injective and equal to it (event 'names')",
         "attribution: payload(line id, offset) starts with a prefix-free code of the id (at most 128 one-byte lines per file)",
         "exception classes of rejections are recorded but not judged here (C14); a loader section without interface is a rejection",
         "meaning of a filter whose last entry has the continuation bit set is undefined; the code drops the open group (MC self-test)",
